@@ -12,9 +12,11 @@ func createLockFile(name string, perm os.FileMode) (LockFile, bool, error) {
 	for {
 		// Creating the file exclusively tells reliably whether the lock file already existed.
 		acquiredExisting := false
+		verifYield(name, "lock.create")
 		f, err := os.OpenFile(name, os.O_RDWR|os.O_CREATE|os.O_EXCL, perm)
 		if os.IsExist(err) {
 			acquiredExisting = true
+			verifYield(name, "lock.open")
 			f, err = os.OpenFile(name, os.O_RDWR, perm)
 			if os.IsNotExist(err) {
 				// The lock file was removed by its owner in the meantime.
@@ -24,6 +26,7 @@ func createLockFile(name string, perm os.FileMode) (LockFile, bool, error) {
 		if err != nil {
 			return nil, false, err
 		}
+		verifYield(name, "lock.flock")
 		if err := syscall.Flock(int(f.Fd()), syscall.LOCK_EX|syscall.LOCK_NB); err != nil {
 			_ = f.Close()
 			if err == syscall.EWOULDBLOCK {
@@ -33,6 +36,7 @@ func createLockFile(name string, perm os.FileMode) (LockFile, bool, error) {
 		}
 		// The previous owner could have removed the file after it was opened here.
 		// Make sure the lock is held on the file the path refers to.
+		verifYield(name, "lock.verify")
 		lockedInfo, err := f.Stat()
 		if err != nil {
 			_ = f.Close()
